@@ -371,8 +371,12 @@ pub fn run(focus: Focus, choices: &[u8], _strict: bool) -> Outcome {
       }
     }
   }
+  // (drawn last) the application supplies source timestamps: increasing, or with repeats and
+  // steps backwards (several samples stamped with the time of one measurement)
+  let ts_mode = if focus == Focus::C04 { c.pick(3) } else { 0 };
   o.sample = format!(
-    "history={history:?} transient_local={transient_local} fragment_size={fsize} readers={:?} steps={steps:?}",
+    "history={history:?} transient_local={transient_local} fragment_size={fsize} source_timestamps={} readers={:?} steps={steps:?}",
+    ["none", "increasing", "repeating"][ts_mode],
     readers.iter().map(|r| (r.idx, r.reliable)).collect::<Vec<_>>()
   );
   o.digest = fnv(o.sample.as_bytes());
@@ -522,6 +526,18 @@ pub fn run(focus: Focus, choices: &[u8], _strict: bool) -> Outcome {
         let mut wo = WriteOptionsBuilder::new();
         if let Some(s) = single {
           wo = wo.to_single_reader(readers[*s].guid);
+        }
+        match ts_mode {
+          1 => {
+            wo = wo.source_timestamp(crate::structure::time::Timestamp::from_ticks((3_000_000u64 << 32) + ((last_sn as u64) << 20)));
+            o.label("source-timestamps-increasing");
+          }
+          2 => {
+            let slot = u64::from(fnv(&[salt, last_sn as u8]) as u8 % 3);
+            wo = wo.source_timestamp(crate::structure::time::Timestamp::from_ticks((3_000_000u64 << 32) + (slot << 24)));
+            o.label("source-timestamps-repeating");
+          }
+          _ => {}
         }
         if node.writers[wi]
           .cmd_tx
